@@ -40,7 +40,7 @@ class RecCollector(Collector):
 
 def generate(rng, tier):
     big = tier == "thorough"
-    n = rng.randint(1, 10)
+    n = rng.randint(1, 16 if big else 10)
     few = rng.random() < 0.5   # forced repeats
     pool = []
     for i in range(n):
